@@ -20,6 +20,12 @@ func (group *Group) AddRtmpPushSession(url string, session *rtmp.PushSession) {
 	Log.Debugf("[%s] [%s] add rtmp PushSession into group.", group.UniqueKey, session.UniqueKey())
 	group.mutex.Lock()
 	defer group.mutex.Unlock()
+	// 建连期间pub已经离开了，这路转推不再需要：关闭它，而不是挂到group上空转到超时
+	if group.rtmpPubSession == nil && group.rtspPubSession == nil {
+		Log.Warnf("[%s] [%s] publisher left while relay push was connecting. dispose push session.", group.UniqueKey, session.UniqueKey())
+		session.Dispose()
+		return
+	}
 	if group.url2PushProxy != nil {
 		group.url2PushProxy[url].pushSession = session
 	}
